@@ -306,6 +306,26 @@ def run(ctx):
     c02_len.run(ctx, w5, w3)
 
 
+    # ---------------------------------------------------------------- R-C02-12 (added after seed C02-2)
+    ctx.rule('R-C02-12', 'T9 value flow', 'what is encoded is what was prepared: the packet given to the encoder is the one that was validated and the one whose topic-alias resolution the encoder receives (the PUBREL of an operation in its PUBREL phase, else the operation\'s packet)')
+    sq = ctx.fn('ProtocolState::service_queue_aux')
+    er = sq.calls('Encoder::reset')
+    rc = sq.calls('ProtocolState::compute_outbound_alias_resolution')
+    va = sq.calls('validate::validate_packet_outbound_internal')
+    ok = len(er) == 1 and len(rc) == 1 and len(va) == 1
+    ctx.ob(ok, 'one encoder-setup, one alias-resolution and one last-chance validation site in the service loop', 'prepared|sites', loc=sq.loc())
+    if ok:
+        pk = show(er[0].arg(1))
+        ctx.ob(show(rc[0].arg(1)) == pk, 'the alias resolution is computed for the packet that is encoded (`%s` vs `%s`)' % (show(rc[0].arg(1)), pk), 'prepared|alias-input', loc=rc[0].loc())
+        ctx.ob(show(va[0].arg(0)) == pk, 'the validated packet is the packet that is encoded (`%s` vs `%s`)' % (show(va[0].arg(0)), pk), 'prepared|validated', loc=va[0].loc())
+        inits = [(b, show(e)) for b, e in var_inits(sq, pk)] if re.match(r'^\w+$', pk) else []
+        OPX = r'\(?Option::unwrap\(HashMap::get\(self\.operations, (current_operation_id|Option::unwrap\(self\.current_operation\))\)\)\)?'
+        plain = [x for b, x in inits if re.search(OPX + r'\.packet\)?$', x)]
+        rel = [(b, x) for b, x in inits if re.search(OPX + r'\.qos2_pubrel@Some\.0\)?$', x)]
+        ctx.ob(len(inits) == 2 and len(plain) == 1 and len(rel) == 1 and prims.guarded_any(sq, rel[0][0], [r'\.qos2_pubrel is Some$']),
+               'that packet is the operation\'s own packet, replaced by its PUBREL exactly when the PUBREL slot is set (%s)' % [x[:70] for b, x in inits], 'prepared|packet-choice', loc=sq.loc())
+
+
 def fields_read(ctx, view, depth=1, root='packet', _seen=None):
     """Field names of `<root>.<field>` (or any var when root is None) mentioned in a body and
     its local callees/closures up to `depth`."""
@@ -343,3 +363,4 @@ def fields_read(ctx, view, depth=1, root='packet', _seen=None):
                 continue
             out |= fields_read(ctx, cv, depth - 1, root=None if cs is None else root, _seen=_seen)
     return out
+
